@@ -3,12 +3,24 @@ C09 — scaled Fourier transforms are exact inverse pairs obeying Parseval.
 Theorems are about `Model/Fourier.lean` (hand-written mirror of `aotools/fouriertransform.py`, tied to the code by the
 correspondence driver), for EVERY length n ≥ 1 (odd and even), over any field `K` containing a primitive n-th root
 of unity `ζ` (for `K = ℂ`, `ζ = e^{-2πi/n}`), the twiddle table of the DFT kernel being `m ↦ ζ^m`.
+The real-input variants (`rft/irft`, `rft2/irft2`) are proved over ℂ for even n: both compositions, and Parseval on the
+half-spectrum as the code lays it out (weights 1 at `dcPos`/`nyqPos`, 2 elsewhere).
+
+NOT PROVED (decided by the oracle / correspondence only, see harness/props/c09.py):
+  * real-input variants for odd n — false on the code (open finding `real:irft∘rft:odd`: the API cannot know the length);
+  * closeness of the transform of a sampled centred Gaussian to the analytic Gaussian (numeric bound only);
+  * leading batch dimensions (stack = frames) and non-square inputs of `rft2` — not modelled, oracle/correspondence only
+    (`irft2` is modelled on `N × m` half-spectra, proved on `n × (n/2+1)`);
+  * numpy's C2R `irfft` discards the imaginary parts of the DC and Nyquist bins, the model keeps them: model = code on
+    half-spectra whose DC/Nyquist bins are real (`irft_real` shows the model's output is real exactly there);
+  * binary64 rounding.
 -/
 import Mathlib.Data.Complex.Basic
 import Mathlib.Analysis.SpecialFunctions.Complex.Circle
 import Mathlib.RingTheory.RootsOfUnity.Complex
 import AoVerif.Lemmas.DFT
 import AoVerif.Lemmas.DFTReal
+import AoVerif.Lemmas.DFTHalf
 
 namespace AoVerif.Props.C09
 open Finset AoVerif AoVerif.Fourier AoVerif.DFT
@@ -128,6 +140,32 @@ theorem ift2_ft2 (hζ : IsPrimitiveRoot ζ n) (hn : 0 < n) (δ δf : K) (hδ : (
   rw [ift_congr _ _ _ _ inner a]
   exact ift_ft hζ hn δ δf hδ (fun a'' => x a'' b) ha
 
+/-- the other composition in 2-D: `ft2 ∘ ift2 = id` -/
+theorem ft2_ift2 (hζ : IsPrimitiveRoot ζ n) (hn : 0 < n) (δ δf : K) (hδ : (n:K) * δ * δf = 1) (X : ℕ → ℕ → K)
+    {a b : ℕ} (ha : a < n) (hb : b < n) :
+    ft2 n (fun m => ζ ^ m) δ (ift2 n (fun m => ζ⁻¹ ^ m) (1 / (n:K)) (n:K) δf X) a b = X a b := by
+  unfold ift2 ft2
+  have inner : ∀ a' < n, ft n (fun m => ζ ^ m) δ
+      (fun b' => ift n (fun m => ζ⁻¹ ^ m) (1 / (n:K)) (n:K) δf
+        (fun a'' => ift n (fun m => ζ⁻¹ ^ m) (1 / (n:K)) (n:K) δf (fun b'' => X a'' b'') b') a') b
+      = ift n (fun m => ζ⁻¹ ^ m) (1 / (n:K)) (n:K) δf (fun a'' => X a'' b) a' := by
+    intro a' _
+    have hlin : ∀ b', ift n (fun m => ζ⁻¹ ^ m) (1 / (n:K)) (n:K) δf
+          (fun a'' => ift n (fun m => ζ⁻¹ ^ m) (1 / (n:K)) (n:K) δf (fun b'' => X a'' b'') b') a'
+        = ift n (fun m => ζ⁻¹ ^ m) (1 / (n:K)) (n:K) δf
+          (fun b'' => ift n (fun m => ζ⁻¹ ^ m) (1 / (n:K)) (n:K) δf (fun a'' => X a'' b'') a') b' := by
+      intro b'
+      simp only [ift_centred hζ hn]
+      unfold cdft
+      simp only [sum_mul, mul_sum]
+      rw [sum_comm]
+      apply sum_congr rfl; intro i _; apply sum_congr rfl; intro l _; ring
+    simp only [hlin]
+    exact ft_ift hζ hn δ δf hδ
+      (fun b'' => ift n (fun m => ζ⁻¹ ^ m) (1 / (n:K)) (n:K) δf (fun a'' => X a'' b'') a') hb
+  rw [ft_congr _ _ inner a]
+  exact ft_ift hζ hn δ δf hδ (fun a'' => X a'' b) ha
+
 end field
 
 /-! ### complex numbers: Parseval proper, with `ζ = e^{-2πi/n}` -/
@@ -160,6 +198,37 @@ theorem parseval {n : ℕ} {ζ : ℂ} (hζ : IsPrimitiveRoot ζ n) (hn : 0 < n) 
   simp only [hconj, Complex.mul_conj] at key
   have := congrArg Complex.re key
   simpa [← Complex.ofReal_sum, ← Complex.ofReal_mul] using this
+
+/-- 2-D Parseval for `ft2` over ℂ: `Σ_{a,b} |x_{ab}|² δ² = Σ_{a,b} |X_{ab}|² δ_f²` (1-D Parseval along each axis) -/
+theorem parseval2 {n : ℕ} {ζ : ℂ} (hζ : IsPrimitiveRoot ζ n) (hn : 0 < n) (δ δf : ℝ) (hδ : (n:ℝ) * δ * δf = 1)
+    (x : ℕ → ℕ → ℂ) :
+    (∑ a ∈ range n, ∑ b ∈ range n, Complex.normSq (ft2 n (fun m => ζ ^ m) (δ:ℂ) x a b)) * (δf * δf)
+      = (∑ a ∈ range n, ∑ b ∈ range n, Complex.normSq (x a b)) * (δ * δ) := by
+  unfold ft2
+  -- along axis −2 (index a), for every fixed b
+  have h1 : ∀ b ∈ range n,
+      (∑ a ∈ range n, Complex.normSq (ft n (fun m => ζ ^ m) (δ:ℂ)
+          (fun a' => ft n (fun m => ζ ^ m) (δ:ℂ) (fun b' => x a' b') b) a)) * δf
+        = (∑ a' ∈ range n, Complex.normSq (ft n (fun m => ζ ^ m) (δ:ℂ) (fun b' => x a' b') b)) * δ :=
+    fun b _ => parseval hζ hn δ δf hδ (fun a' => ft n (fun m => ζ ^ m) (δ:ℂ) (fun b' => x a' b') b)
+  -- along axis −1 (index b), for every fixed a'
+  have h2 : ∀ a' ∈ range n,
+      (∑ b ∈ range n, Complex.normSq (ft n (fun m => ζ ^ m) (δ:ℂ) (fun b' => x a' b') b)) * δf
+        = (∑ b' ∈ range n, Complex.normSq (x a' b')) * δ :=
+    fun a' _ => parseval hζ hn δ δf hδ (fun b' => x a' b')
+  rw [sum_comm]
+  calc (∑ b ∈ range n, ∑ a ∈ range n, Complex.normSq (ft n (fun m => ζ ^ m) (δ:ℂ)
+          (fun a' => ft n (fun m => ζ ^ m) (δ:ℂ) (fun b' => x a' b') b) a)) * (δf * δf)
+      = (∑ b ∈ range n, (∑ a ∈ range n, Complex.normSq (ft n (fun m => ζ ^ m) (δ:ℂ)
+          (fun a' => ft n (fun m => ζ ^ m) (δ:ℂ) (fun b' => x a' b') b) a)) * δf) * δf := by
+        rw [← sum_mul]; ring
+    _ = (∑ b ∈ range n, (∑ a' ∈ range n, Complex.normSq (ft n (fun m => ζ ^ m) (δ:ℂ) (fun b' => x a' b') b)) * δ) * δf := by
+        rw [sum_congr rfl h1]
+    _ = (∑ a' ∈ range n, (∑ b ∈ range n, Complex.normSq (ft n (fun m => ζ ^ m) (δ:ℂ) (fun b' => x a' b') b)) * δf) * δ := by
+        rw [← sum_mul, ← sum_mul, sum_comm]; ring
+    _ = (∑ a' ∈ range n, (∑ b' ∈ range n, Complex.normSq (x a' b')) * δ) * δ := by
+        rw [sum_congr rfl h2]
+    _ = _ := by rw [← sum_mul]; ring
 
 /-- the concrete root used by the FFT kernel, `ζ = e^{-2πi/n}`, is a primitive n-th root: the theorems are not vacuous -/
 theorem fft_root_primitive {n : ℕ} (hn : 0 < n) :
@@ -203,6 +272,236 @@ theorem irft_rft (hζ : IsPrimitiveRoot ζ n) (hn : 0 < n) (heven : n % 2 = 0) (
   rw [shift_cancel _ _ hj]
   have : ((n:ℂ)) * (δ:ℂ) * (δf:ℂ) = 1 := by exact_mod_cast hδ
   linear_combination (x j) * this
+
+/-! #### where `rft` puts the two self-conjugate bins, and Parseval on the half-spectrum
+
+`rft` returns the `n/2+1` bins `0 … n/2` of the DFT of the (shifted) signal, themselves passed through
+`fftshift` of length `n/2+1`.  After that shift DC sits at position `(n/2+1)/2` and Nyquist right before it. -/
+
+/-- position of the DC bin in the output of `rft` (length `n/2+1`) -/
+def dcPos (n : ℕ) : ℕ := (n / 2 + 1) / 2
+/-- position of the Nyquist bin in the output of `rft` for even `n ≥ 2` -/
+def nyqPos (n : ℕ) : ℕ := (n / 2 + 1) / 2 - 1
+/-- Parseval weight of position `k` of the output of `rft`: the two self-conjugate bins count once, the others twice -/
+noncomputable def halfWeight (n k : ℕ) : ℝ := if k = dcPos n ∨ k = nyqPos n then 1 else 2
+
+/-- the bin at `dcPos` is DC: the plain sum of the samples times δ (every n ≥ 1, any field) -/
+theorem rft_dc {K : Type} [Field K] {n : ℕ} {ζ : K} (hn : 0 < n) (δ : K) (x : ℕ → K) :
+    rft n (fun m => ζ ^ m) δ x (dcPos n) = (∑ j ∈ range n, x j) * δ := by
+  unfold rft rfft dcPos
+  show dft n (fun m => ζ ^ m) (fftshift n x) (((n / 2 + 1) / 2 + (n / 2 + 1 - (n / 2 + 1) / 2)) % (n / 2 + 1)) * δ = _
+  have h0 : ((n / 2 + 1) / 2 + (n / 2 + 1 - (n / 2 + 1) / 2)) % (n / 2 + 1) = 0 :=
+    (fftshift_zero_iff (n / 2 + 1) _ (Nat.div_lt_self (by omega) (by norm_num))).2 rfl
+  rw [h0]
+  unfold dft fftshift
+  rw [sumTo_eq_sum]
+  simp only [Nat.mul_zero, Nat.zero_mod, pow_zero, mul_one]
+  rw [sum_shift hn x (n - n / 2)]
+
+/-- the bin at `nyqPos` is the Nyquist bin `n/2` of the DFT of the shifted signal (even n ≥ 2) -/
+theorem rft_nyquist {K : Type} [Field K] {n : ℕ} {ζ : K} (hn : 0 < n) (heven : n % 2 = 0) (δ : K) (x : ℕ → K) :
+    rft n (fun m => ζ ^ m) δ x (nyqPos n) = dft n (fun m => ζ ^ m) (fftshift n x) (n / 2) * δ := by
+  unfold rft rfft nyqPos
+  show dft n (fun m => ζ ^ m) (fftshift n x)
+    (((n / 2 + 1) / 2 - 1 + (n / 2 + 1 - (n / 2 + 1) / 2)) % (n / 2 + 1)) * δ = _
+  have h0 : ((n / 2 + 1) / 2 - 1 + (n / 2 + 1 - (n / 2 + 1) / 2)) % (n / 2 + 1) = n / 2 + 1 - 1 :=
+    (fftshift_last_iff (n / 2 + 1) _ (by omega) (by omega)).2 rfl
+  rw [h0, Nat.add_sub_cancel]
+
+/-- **Parseval on the half-spectrum** (even n, real x): `Σ_j x_j² δ = δ_f Σ_k w_k |H_k|²` over the `n/2+1` bins of
+`H = rft(x, δ)` as the code lays them out, `w = 1` at `dcPos`/`nyqPos` and `2` elsewhere -/
+theorem parseval_half (hζ : IsPrimitiveRoot ζ n) (hn : 0 < n) (heven : n % 2 = 0) (δ δf : ℝ) (hδ : (n:ℝ) * δ * δf = 1)
+    (x : ℕ → ℂ) (hx : ∀ j, (starRingEnd ℂ) (x j) = x j) :
+    (∑ k ∈ range (n / 2 + 1), halfWeight n k * Complex.normSq (rft n (fun m => ζ ^ m) (δ:ℂ) x k)) * δf
+      = (∑ j ∈ range n, Complex.normSq (x j)) * δ := by
+  obtain ⟨r, hr⟩ : ∃ r, n = 2 * (r + 1) := ⟨n / 2 - 1, by omega⟩
+  have hm : n / 2 + 1 = r + 2 := by omega
+  have hureal : ∀ j, (starRingEnd ℂ) (fftshift n x j) = fftshift n x j := fun j => hx _
+  -- the weighted energy of the un-shifted half-spectrum
+  have hhalf := dft_half_parseval hζ r hr (fftshift n x) hureal
+  have hxs : ∑ j ∈ range n, Complex.normSq (fftshift n x j) = ∑ j ∈ range n, Complex.normSq (x j) :=
+    sum_shift hn (fun j => Complex.normSq (x j)) (n - n / 2)
+  rw [hxs] at hhalf
+  -- position k of the output reads bin σ k, and its weight is the weight of that bin
+  let f : ℕ → ℝ := fun q => (if q = 0 ∨ q = r + 1 then (1:ℝ) else 2)
+    * Complex.normSq (dft n (fun m => ζ ^ m) (fftshift n x) q) * (δ * δ)
+  have hk : ∀ k ∈ range (n / 2 + 1), halfWeight n k * Complex.normSq (rft n (fun m => ζ ^ m) (δ:ℂ) x k)
+      = f ((k + (n / 2 + 1 - (n / 2 + 1) / 2)) % (n / 2 + 1)) := by
+    intro k hk
+    have hk' := mem_range.mp hk
+    have hw : halfWeight n k
+        = (if (k + (n / 2 + 1 - (n / 2 + 1) / 2)) % (n / 2 + 1) = 0
+            ∨ (k + (n / 2 + 1 - (n / 2 + 1) / 2)) % (n / 2 + 1) = r + 1 then (1:ℝ) else 2) := by
+      have e1 := fftshift_zero_iff (n / 2 + 1) k hk'
+      have e2 := fftshift_last_iff (n / 2 + 1) k (by omega) hk'
+      have e3 : n / 2 + 1 - 1 = r + 1 := by omega
+      rw [e3] at e2
+      unfold halfWeight dcPos nyqPos
+      simp only [e1, e2]
+    rw [hw]
+    unfold rft rfft
+    show _ * Complex.normSq (dft n (fun m => ζ ^ m) (fftshift n x)
+      ((k + (n / 2 + 1 - (n / 2 + 1) / 2)) % (n / 2 + 1)) * (δ:ℂ)) = _
+    rw [Complex.normSq_mul, Complex.normSq_ofReal]
+    simp only [f]; ring
+  rw [sum_congr rfl hk, sum_shift (by omega) f, hm]
+  simp only [f]
+  rw [← sum_mul, hhalf]
+  linear_combination ((∑ j ∈ range n, Complex.normSq (x j)) * δ) * hδ
+
+/-! #### two dimensions -/
+
+/-- **2-D real variants are an inverse pair for even n×n real input**: `irft2(rft2(x, δ), 1/(nδ)) = x`.
+(`irft2` is called as the code calls it on the `n × (n/2+1)` output of `rft2`: `N = n`, `m = n/2+1`, both kernel
+tables of length `n = 2 (m − 1)`.) -/
+theorem irft2_rft2 (hζ : IsPrimitiveRoot ζ n) (hn : 0 < n) (heven : n % 2 = 0) (δ δf : ℝ) (hδ : (n:ℝ) * δ * δf = 1)
+    (x : ℕ → ℕ → ℂ) (hx : ∀ a b, (starRingEnd ℂ) (x a b) = x a b) {a b : ℕ} (ha : a < n) (hb : b < n) :
+    irft2 n (n / 2 + 1) (fun m => ζ⁻¹ ^ m) (1 / (n:ℂ)) (fun m => ζ⁻¹ ^ m) (1 / (n:ℂ)) (starRingEnd ℂ) (n:ℂ) (δf:ℂ)
+      (rft2 n (fun m => ζ ^ m) (δ:ℂ) x) a b = x a b := by
+  have hδ' : ((n:ℂ)) * (δ:ℂ) * (δf:ℂ) = 1 := by exact_mod_cast hδ
+  unfold irft2 rft2
+  -- along axis −2 the pinned pair cancels (every bin k of the half-spectrum)
+  have inner : (fun k => ift_pinned n (fun m => ζ⁻¹ ^ m) (1 / (n:ℂ)) (n:ℂ) (δf:ℂ)
+        (fun a' => ft_pinned n (fun m => ζ ^ m) (δ:ℂ) (fun a'' => rft n (fun m => ζ ^ m) (δ:ℂ) (fun b' => x a'' b') k) a') a)
+      = rft n (fun m => ζ ^ m) (δ:ℂ) (fun b' => x a b') := by
+    funext k
+    exact ift_pinned_ft_pinned hζ hn (δ:ℂ) (δf:ℂ) hδ' (fun a'' => rft n (fun m => ζ ^ m) (δ:ℂ) (fun b' => x a'' b') k) ha
+  rw [inner]
+  -- along axis −1 the 1-D real pair cancels
+  have h2 : ((2 * (n / 2 + 1 - 1) : ℕ) : ℂ) = (n:ℂ) := by
+    have : 2 * (n / 2 + 1 - 1) = n := by omega
+    rw [this]
+  have := irft_rft hζ hn heven δ δf hδ (fun b' => x a b') (fun j => hx a j) hb
+  rw [h2] at this
+  exact this
+
+/-- **Parseval on the 2-D half-spectrum** (even n, real n×n x): `Σ_{a,b} x_{ab}² δ² = δ_f² Σ_{a,k} w_k |H_{ak}|²` over the
+`n × (n/2+1)` bins of `H = rft2(x, δ)`; only the halved LAST axis carries weights (`halfWeight`, as in 1-D) -/
+theorem parseval_half2 (hζ : IsPrimitiveRoot ζ n) (hn : 0 < n) (heven : n % 2 = 0) (δ δf : ℝ) (hδ : (n:ℝ) * δ * δf = 1)
+    (x : ℕ → ℕ → ℂ) (hx : ∀ a b, (starRingEnd ℂ) (x a b) = x a b) :
+    (∑ a ∈ range n, ∑ k ∈ range (n / 2 + 1),
+        halfWeight n k * Complex.normSq (rft2 n (fun m => ζ ^ m) (δ:ℂ) x a k)) * (δf * δf)
+      = (∑ a ∈ range n, ∑ b ∈ range n, Complex.normSq (x a b)) * (δ * δ) := by
+  unfold rft2
+  -- axis −2: Parseval of the pinned composition, for every bin k of the last axis
+  have h1 : ∀ k ∈ range (n / 2 + 1),
+      (∑ a ∈ range n, halfWeight n k * Complex.normSq (ft_pinned n (fun m => ζ ^ m) (δ:ℂ)
+          (fun a' => rft n (fun m => ζ ^ m) (δ:ℂ) (fun b' => x a' b') k) a)) * δf
+        = (∑ a' ∈ range n, halfWeight n k * Complex.normSq (rft n (fun m => ζ ^ m) (δ:ℂ) (fun b' => x a' b') k)) * δ := by
+    intro k _
+    rw [← mul_sum, ← mul_sum, mul_assoc, mul_assoc,
+      parseval_pinned hζ hn δ δf hδ (fun a' => rft n (fun m => ζ ^ m) (δ:ℂ) (fun b' => x a' b') k)]
+  -- axis −1: half-spectrum Parseval of every (real) row
+  have h2 : ∀ a' ∈ range n,
+      (∑ k ∈ range (n / 2 + 1), halfWeight n k * Complex.normSq (rft n (fun m => ζ ^ m) (δ:ℂ) (fun b' => x a' b') k)) * δf
+        = (∑ b' ∈ range n, Complex.normSq (x a' b')) * δ :=
+    fun a' _ => parseval_half hζ hn heven δ δf hδ (fun b' => x a' b') (fun j => hx a' j)
+  rw [sum_comm]
+  calc (∑ k ∈ range (n / 2 + 1), ∑ a ∈ range n, halfWeight n k * Complex.normSq (ft_pinned n (fun m => ζ ^ m) (δ:ℂ)
+          (fun a' => rft n (fun m => ζ ^ m) (δ:ℂ) (fun b' => x a' b') k) a)) * (δf * δf)
+      = (∑ k ∈ range (n / 2 + 1), (∑ a ∈ range n, halfWeight n k * Complex.normSq (ft_pinned n (fun m => ζ ^ m) (δ:ℂ)
+          (fun a' => rft n (fun m => ζ ^ m) (δ:ℂ) (fun b' => x a' b') k) a)) * δf) * δf := by
+        rw [← sum_mul]; ring
+    _ = (∑ k ∈ range (n / 2 + 1), (∑ a' ∈ range n,
+          halfWeight n k * Complex.normSq (rft n (fun m => ζ ^ m) (δ:ℂ) (fun b' => x a' b') k)) * δ) * δf := by
+        rw [sum_congr rfl h1]
+    _ = (∑ a' ∈ range n, (∑ k ∈ range (n / 2 + 1),
+          halfWeight n k * Complex.normSq (rft n (fun m => ζ ^ m) (δ:ℂ) (fun b' => x a' b') k)) * δf) * δ := by
+        rw [← sum_mul, ← sum_mul, sum_comm]; ring
+    _ = (∑ a' ∈ range n, (∑ b' ∈ range n, Complex.normSq (x a' b')) * δ) * δ := by
+        rw [sum_congr rfl h2]
+    _ = _ := by rw [← sum_mul]; ring
+
+/-! #### the other composition on half-spectra
+
+In the model `irfft` keeps the imaginary parts of the DC and Nyquist bins, which numpy's complex-to-real transform
+discards; model and code agree on half-spectra whose DC and Nyquist bins are real — the domain of `irft`, on which the
+correspondence runs — and exactly there the model's output is real (`irft_real`). -/
+
+/-- `irft` of a half-spectrum (even n) whose DC and Nyquist bins — at `dcPos`, `nyqPos` — are real is a real signal -/
+theorem irft_real (hζ : IsPrimitiveRoot ζ n) (hn : 0 < n) (heven : n % 2 = 0) (δf : ℝ) (H : ℕ → ℂ)
+    (hdc : (starRingEnd ℂ) (H (dcPos n)) = H (dcPos n)) (hnyq : (starRingEnd ℂ) (H (nyqPos n)) = H (nyqPos n)) (j : ℕ) :
+    (starRingEnd ℂ) (irft (n / 2 + 1) (fun m => ζ⁻¹ ^ m) (1 / (n:ℂ)) (starRingEnd ℂ) (((2 * (n / 2 + 1 - 1) : ℕ)) : ℂ) (δf:ℂ) H j)
+      = irft (n / 2 + 1) (fun m => ζ⁻¹ ^ m) (1 / (n:ℂ)) (starRingEnd ℂ) (((2 * (n / 2 + 1 - 1) : ℕ)) : ℂ) (δf:ℂ) H j := by
+  have h2 : 2 * (n / 2 + 1 - 1) = n := by omega
+  unfold irft
+  rw [h2]
+  unfold irfft
+  show (starRingEnd ℂ) (idft n (fun m => ζ⁻¹ ^ m) (1 / (n:ℂ)) (hermComplete n (starRingEnd ℂ) (ifftshift (n / 2 + 1) H))
+      ((j + n / 2) % n) * (n:ℂ) * (δf:ℂ)) = _
+  have h0 : (starRingEnd ℂ) (ifftshift (n / 2 + 1) H 0) = ifftshift (n / 2 + 1) H 0 := by
+    show (starRingEnd ℂ) (H ((0 + (n / 2 + 1) / 2) % (n / 2 + 1))) = H ((0 + (n / 2 + 1) / 2) % (n / 2 + 1))
+    rw [Nat.zero_add, Nat.mod_eq_of_lt (by omega)]
+    exact hdc
+  have hN : (starRingEnd ℂ) (ifftshift (n / 2 + 1) H (n / 2)) = ifftshift (n / 2 + 1) H (n / 2) := by
+    show (starRingEnd ℂ) (H ((n / 2 + (n / 2 + 1) / 2) % (n / 2 + 1))) = H ((n / 2 + (n / 2 + 1) / 2) % (n / 2 + 1))
+    have : n / 2 + (n / 2 + 1) / 2 = ((n / 2 + 1) / 2 - 1) + (n / 2 + 1) := by omega
+    rw [this, Nat.add_mod_right, Nat.mod_eq_of_lt (by omega)]
+    exact hnyq
+  rw [map_mul, map_mul, Complex.conj_ofReal, map_natCast,
+    idft_real_of_herm hζ hn _ (hermComplete_herm heven _ h0 hN)]
+  rfl
+
+/-- `rft(irft(H, 1/(nδ)), δ) = H` on the `n/2+1` bins (even n) -/
+theorem rft_irft (hζ : IsPrimitiveRoot ζ n) (hn : 0 < n) (heven : n % 2 = 0) (δ δf : ℝ) (hδ : (n:ℝ) * δ * δf = 1)
+    (H : ℕ → ℂ) {k : ℕ} (hk : k < n / 2 + 1) :
+    rft n (fun m => ζ ^ m) (δ:ℂ)
+      (irft (n / 2 + 1) (fun m => ζ⁻¹ ^ m) (1 / (n:ℂ)) (starRingEnd ℂ) (((2 * (n / 2 + 1 - 1) : ℕ)) : ℂ) (δf:ℂ) H) k = H k := by
+  have h2 : 2 * (n / 2 + 1 - 1) = n := by omega
+  have hδ' : ((n:ℂ)) * (δ:ℂ) * (δf:ℂ) = 1 := by exact_mod_cast hδ
+  have hfull : ∀ j < n, fftshift n
+        (irft (n / 2 + 1) (fun m => ζ⁻¹ ^ m) (1 / (n:ℂ)) (starRingEnd ℂ) (((2 * (n / 2 + 1 - 1) : ℕ)) : ℂ) (δf:ℂ) H) j
+      = idft n (fun m => ζ⁻¹ ^ m) (1 / (n:ℂ)) (hermComplete n (starRingEnd ℂ) (ifftshift (n / 2 + 1) H)) j
+          * ((n:ℂ) * (δf:ℂ)) := by
+    intro j hj
+    unfold fftshift irft
+    rw [h2]
+    unfold irfft
+    show idft n (fun m => ζ⁻¹ ^ m) (1 / (n:ℂ)) (hermComplete n (starRingEnd ℂ) (ifftshift (n / 2 + 1) H))
+      (((j + (n - n / 2)) % n + n / 2) % n) * (n:ℂ) * (δf:ℂ) = _
+    rw [shift_cancel' _ _ hj]; ring
+  have hq : (k + (n / 2 + 1 - (n / 2 + 1) / 2)) % (n / 2 + 1) < n / 2 + 1 := Nat.mod_lt _ (by omega)
+  unfold rft rfft
+  show dft n (fun m => ζ ^ m) (fftshift n
+      (irft (n / 2 + 1) (fun m => ζ⁻¹ ^ m) (1 / (n:ℂ)) (starRingEnd ℂ) (((2 * (n / 2 + 1 - 1) : ℕ)) : ℂ) (δf:ℂ) H))
+    ((k + (n / 2 + 1 - (n / 2 + 1) / 2)) % (n / 2 + 1)) * (δ:ℂ) = H k
+  rw [dft_congr' _ hfull, dft_mul_const', dft_idft hζ hn _ (by omega)]
+  unfold hermComplete
+  rw [if_pos (by omega)]
+  show H (((k + (n / 2 + 1 - (n / 2 + 1) / 2)) % (n / 2 + 1) + (n / 2 + 1) / 2) % (n / 2 + 1)) * _ * _ = _
+  rw [shift_cancel' _ _ hk]
+  linear_combination (H k) * hδ'
+
+/-- `rft2(irft2(H, 1/(nδ)), δ) = H` on the `n × (n/2+1)` bins (even n) -/
+theorem rft2_irft2 (hζ : IsPrimitiveRoot ζ n) (hn : 0 < n) (heven : n % 2 = 0) (δ δf : ℝ) (hδ : (n:ℝ) * δ * δf = 1)
+    (H : ℕ → ℕ → ℂ) {a k : ℕ} (ha : a < n) (hk : k < n / 2 + 1) :
+    rft2 n (fun m => ζ ^ m) (δ:ℂ)
+      (irft2 n (n / 2 + 1) (fun m => ζ⁻¹ ^ m) (1 / (n:ℂ)) (fun m => ζ⁻¹ ^ m) (1 / (n:ℂ)) (starRingEnd ℂ) (n:ℂ) (δf:ℂ) H) a k
+      = H a k := by
+  have hδ' : ((n:ℂ)) * (δ:ℂ) * (δf:ℂ) = 1 := by exact_mod_cast hδ
+  have h2 : ((2 * (n / 2 + 1 - 1) : ℕ) : ℂ) = (n:ℂ) := by
+    have : 2 * (n / 2 + 1 - 1) = n := by omega
+    rw [this]
+  unfold rft2 irft2
+  have inner : (fun a' => rft n (fun m => ζ ^ m) (δ:ℂ)
+        (fun b' => irft (n / 2 + 1) (fun m => ζ⁻¹ ^ m) (1 / (n:ℂ)) (starRingEnd ℂ) (n:ℂ) (δf:ℂ)
+          (fun k' => ift_pinned n (fun m => ζ⁻¹ ^ m) (1 / (n:ℂ)) (n:ℂ) (δf:ℂ) (fun a'' => H a'' k') a') b') k)
+      = ift_pinned n (fun m => ζ⁻¹ ^ m) (1 / (n:ℂ)) (n:ℂ) (δf:ℂ) (fun a'' => H a'' k) := by
+    funext a'
+    have := rft_irft hζ hn heven δ δf hδ
+      (fun k' => ift_pinned n (fun m => ζ⁻¹ ^ m) (1 / (n:ℂ)) (n:ℂ) (δf:ℂ) (fun a'' => H a'' k') a') hk
+    rw [h2] at this
+    exact this
+  rw [inner]
+  exact ft_pinned_ift_pinned hζ hn (δ:ℂ) (δf:ℂ) hδ' (fun a'' => H a'' k) ha
+
+/-- non-vacuity of the hypothesis set of the real-variant theorems (`n = 2`, `ζ = e^{-2πi/2}`, `δ = 1`, `δ_f = 1/2`, `x ≡ 1`),
+and the layout for `n = 6`: the 4 bins come out as `[2, Nyquist, DC, 1]` -/
+example : ∃ (n : ℕ) (ζ : ℂ) (δ δf : ℝ) (x : ℕ → ℂ), IsPrimitiveRoot ζ n ∧ 0 < n ∧ n % 2 = 0 ∧ (n:ℝ) * δ * δf = 1
+    ∧ ∀ j, (starRingEnd ℂ) (x j) = x j :=
+  ⟨2, _, 1, 1 / 2, fun _ => 1, fft_root_primitive (by norm_num), by norm_num, by norm_num, by norm_num,
+    fun _ => map_one _⟩
+example : dcPos 6 = 2 ∧ nyqPos 6 = 1 ∧ dcPos 2 = 1 ∧ nyqPos 2 = 0 ∧ dcPos 8 = 2 ∧ nyqPos 8 = 1 := by decide
 
 end complex
 
